@@ -172,10 +172,26 @@ DSpdRecord(c) ==
       dinv |-> TLCEval([v \in 1..V |-> RM2(RatM(NDInvSym(adj, vars[v]), det * det))]),
       dL |-> TLCEval([v \in 1..V |-> RM2(RatM(NDChol(L, vars[v]), 2 * dl * dl))])]
 
+(* The helpers return the derivatives of f with respect to THEIR argument,
+   whatever derivative state the evaluation point carries when it is handed
+   in.  The contract therefore quantifies over the state of the point; the
+   expected tables are the same for every state:
+     fresh        no derivative information
+     slice_o1/2   entries 2..4 of a vector of five that was activated as a whole
+                  (order 1 / 2): N = 5, shifted variable indices
+     computed_o1/2  computed from four other active variables (x_i = u_i u_4, u_4 = 1)
+     sameN_o1     activated before with the same number of variables in the
+                  reversed layout (order 1)
+     sameN_o2     computed from three active variables of order 2 in the reversed
+                  layout with non-zero second derivatives
+                  (x_i = u_i + (u_j - value(u_j))^2): same N and order as the
+                  helper's own activation *)
+PointStates == <<"fresh", "slice_o1", "slice_o2", "computed_o1", "computed_o2", "sameN_o1", "sameN_o2">>
+
 PolyRecord(c) ==
   LET F == MapOf(c.idx)
       x == PointOf(c.idx)
-  IN [k |-> "poly", fam |-> "poly", n |-> NV, idx |-> c.idx, f |-> F, x |-> RV2(x),
+  IN [k |-> "poly", fam |-> "poly", n |-> NV, idx |-> c.idx, f |-> F, x |-> RV2(x), pstates |-> PointStates,
       val |-> TLCEval([k \in 1..3 |-> R2(PolyVal(F[k], x))]),
       jac |-> TLCEval([k \in 1..3 |-> TLCEval([i \in 1..NV |-> R2(PolyVal(DPoly(F[k], i), x))])]),
       hess |-> TLCEval([i \in 1..NV |-> TLCEval([j \in 1..NV |-> R2(PolyVal(DPoly(DPoly(F[1], i), j), x))])])]
